@@ -89,7 +89,7 @@ def run(ctx):
     vec = lc.write_scheds(ctx, scheds)
     out = ctx.go_test("internal/repository", "^TestVerif_C13$", tags=lc.TAGS, env={"VERIF_VECTORS": vec}, timeout=3000)
     recs = os.path.join(out, "recs.ndjson")
-    n, bad, lines = ctx.check_records("LockRec13", recs, shard=ctx.pick(150, 300))
+    n, bad, lines = ctx.check_records("LockRec13", recs, shard=ctx.pick(300, 500))
     classes = {}
     if bad:
         sub = os.path.join(ctx.work, "bad.ndjson")
